@@ -155,6 +155,8 @@ def optional_upstream_shape(label: str, executed: list, pre: dict, post: dict, _
     return found
 
 
+INCOMPLETE_HASH_SIGNATURE = ("oracle:cone:recycled-step-of-a-rerun-plan:stored-hash-omits-an-input-rechecked-during-its-run:"
+                             "executed-with-unchanged-inputs")
 AMENDED_STATIC_SIGNATURE = ("oracle:cone:amended-static-input-redeclared-by-a-rerun-declarer:"
                             "validated-before-reconfirmed:executed-outside-cone")
 
@@ -1011,7 +1013,7 @@ def run_absorbed(item: dict) -> dict:
     schedule = item.get("cone_schedule", {"seed": rng.randint(0, 10 ** 6)}
                         if flavour == "restart" and "project" not in item and rng.random() < 0.5 else None)
     sub = dict(item, project=project.to_json(), history=[], cone_edits=[edits, edited], cone_schedule=schedule,
-               skip_env=True, max_phases=1)
+               skip_env=True, max_phases=1, strict_recycled=True)
     sub.pop("kind", None)
     rep = run_case(sub)
     rep["kind"], rep["variant"] = "absorbed", variant
@@ -1477,6 +1479,20 @@ def _cone_check(item, rng, proj, ref, rebuild, flavour, report, count, fail, roo
         causeless = rerun_without_cause(executed, edited, pre, post, ref.files, new.files, report["stats"],
                                         declared_steps(proj.program))
         count("cone:skip_rule_checked", len(set(executed)))
+        # A recycled step of a RERUN plan (a creator up its chain is executed) is "declared by an executed step": the
+        # property text allows its execution.  In the directed families (deterministic, no concurrent producer) the
+        # stricter rule stays; in random cases such an execution is the consequence of finding
+        # C04-incomplete-stored-hash (the stored hash of a step that ran while a producer was being re-checked omits
+        # that input) and goes under its own signature.
+        recycled = [] if item.get("strict_recycled") else \
+            sorted(l for l in causeless if _ancestors(l, pre) & set(executed))
+        causeless = [l for l in causeless if l not in recycled]
+        if recycled:
+            count("cone:recycled-step-of-a-rerun-plan-executed-with-unchanged-inputs")
+            fail(INCOMPLETE_HASH_SIGNATURE,
+                 f"({flavour}) edited {edited}; executed {executed}; recycled steps of a rerun plan whose inputs have the "
+                 f"same content as before, executed: {recycled}",
+                 {"edited": edited, "executed": executed, "causeless": recycled, "flavour": flavour})
         if causeless:
             fail(f"oracle:cone:{flavour}:executed-with-unchanged-inputs",
                  f"edited {edited}; executed {executed}; steps declared as before whose inputs have the same content "
